@@ -13,6 +13,13 @@ import types
 from .core import ModelError
 
 NS = types.SimpleNamespace
+
+
+class Rec(dict):
+    """Array stand-in: item reads give 0, item stores are recorded (it is a dict keyed by the index tuple); attributes are set by the rule."""
+    def __missing__(self, k):
+        return 0
+
 _CALLS = {'len': len, 'min': min, 'max': max, 'sum': sum, 'int': int, 'abs': abs, 'any': any, 'all': all, 'bool': bool,
           'range': range, 'enumerate': enumerate, 'zip': zip, 'list': list, 'tuple': tuple, 'sorted': sorted, 'reversed': reversed,
           'next': lambda it, *d: next(iter(it), *d), 'set': set, 'str': str}
@@ -27,11 +34,13 @@ def ev(e, env):
         raise ModelError(f'minieval: unbound name {e.id}')
     if isinstance(e, ast.Attribute):
         b = ev(e.value, env)
-        if isinstance(b, NS) and hasattr(b, e.attr):
+        if isinstance(b, (NS, Rec)) and hasattr(b, e.attr):
             return getattr(b, e.attr)
         raise ModelError(f'minieval: attribute {ast.unparse(e)}')
     if isinstance(e, ast.Subscript):
         b = ev(e.value, env)
+        if isinstance(b, Rec):
+            return b[ev(e.slice, env)]
         if not isinstance(b, (list, tuple, dict, str)):
             raise ModelError(f'minieval: subscript on {type(b).__name__}: {ast.unparse(e)}')
         if isinstance(e.slice, ast.Slice):
